@@ -286,6 +286,20 @@ func TestPrehash(t *testing.T) {
 		if err != nil {
 			rt.Fatalf("%v: ComputePrehash(%x): %v", c, msg, err)
 		}
+		// history: further prehashes are computed on the same object before the first one is signed
+		// (a batch of documents hashed first, signed later); the earlier result must not change
+		saved := bytes.Clone(digest)
+		batch := rapid.IntRange(0, 2).Draw(rt, "batch")
+		for i := 0; i < batch; i++ {
+			other := gen.Bytes(rt, "batchmsg", 64)
+			if _, err := ph.ComputePrehash(other); err != nil {
+				rt.Fatalf("%v: ComputePrehash(%x): %v", c, other, err)
+			}
+		}
+		if !bytes.Equal(digest, saved) {
+			rt.Fatalf("%v: the prehash returned for %x changed from %x to %x after %d later ComputePrehash calls on the same object", c, msg, saved, digest, batch)
+		}
+		evid.Add("prehash_batch_calls", int64(batch))
 		detrand.Seed(entropy)
 		sig, err := phs.SignPrehash(digest)
 		if err != nil {
